@@ -854,9 +854,32 @@ func (boundNode *Node) resolveRef(binding *syntax.RefExp, t syntax.Type,
 		boundNode.call.Call().DecId, readSize)
 }
 
+// outputsRejected says whether the fork's outputs file is one that was
+// refused.  The file is written before the outputs are checked; if they are
+// refused, an error is recorded for the fork and the file stays behind until
+// the fork is reset.  The cached state may not have been loaded yet (forks
+// are restored before the metadata is, on re-attach), so the error markers
+// are looked for on disk as well.
+func (f *Fork) outputsRejected() bool {
+	if f.metadata.exists(Errors) || f.metadata.exists(Assert) {
+		return true
+	}
+	for _, name := range [...]MetadataFileName{Errors, Assert} {
+		if _, err := os.Lstat(f.metadata.MetadataFilePath(name)); err == nil {
+			return true
+		}
+	}
+	return false
+}
+
 func (f *Fork) resolveRef(binding *syntax.RefExp, t syntax.Type,
 	decId string,
 	readSize int64) (bool, json.Marshaler, error) {
+	if f.outputsRejected() {
+		// These outputs will be replaced once the fork has been reset and
+		// run again; until then there is nothing to resolve.
+		return false, nil, nil
+	}
 	args, err := f.metadata.read(OutsFile, readSize)
 	if err != nil {
 		if os.IsNotExist(err) {
